@@ -53,6 +53,7 @@ type world struct {
 	blocks   []*block
 	slots    []*alloc // slot -> allocation object (never reused)
 	sentinel bool     // temporaries carry the defrag context as metadata user data
+	dead     bool     // a panic happened: the history is over
 
 	ctx      *defrag.MetadataDefragContext[alloc]
 	begun    bool
